@@ -223,13 +223,13 @@ func init() {
 		core.RunLeg(c, core.Leg[c20Case]{
 			Name: "F", Kind: "oracle(flips)",
 			Rule: "random ASTs of the C01 fragment compiled with IgnoreCase (plus random m/s/n/x, 20% RightToLeft), literals/classes/ranges/subtractions/backrefs over letters with plain case pairs (ASCII without k/s, Latin-1, Greek, Cyrillic); each case flips the case of a random third of the input letters and of a random third of the pattern's literal letters / class members / range endpoints; Go find (span + all captures) on (pattern,input) must equal find on (pattern,flipped input), (flipped pattern,input), (flipped pattern,flipped input); MatchString likewise (prefix-search fast paths). non-trivial = something was flipped and input non-empty",
-			N: c.N(6000, 300000), Gen: g.next, Check: c20Check, Batch: 4000,
+			N:    c.N(6000, 300000), Gen: g.next, Check: c20Check, Batch: 4000,
 		})
 		st := &specGenState{cfg: c20Config, perAst: 6, maxLen: 10}
 		core.RunLeg(c, core.Leg[specCase]{
 			Name: "S-ci", Kind: "correspondence(spec)",
 			Rule: "as leg S of C01 with IgnoreCase always on: Go find vs Lean Spec.find, where a literal matches a rune iff equal or simple case partners, a class member test also accepts the partner, back-references compare up to partners",
-			N: c.N(4000, 200000), Gen: st.next, Check: specCheck("C20"), Batch: 4000,
+			N:    c.N(4000, 200000), Gen: st.next, Check: specCheck("C20"), Batch: 4000,
 		})
 	})
 }
